@@ -239,6 +239,10 @@ def goZero : PType → Json
 /-- behaviours of the harness' recording handlers -/
 inductive Behaviour where
   | echo | fail | internal | nilres | typednil | both
+  /-- returns a value `json.Marshal` rejects (NaN) -/
+  | unmarshalable
+  /-- panics -/
+  | panic
   /-- blocks until the request context is cancelled, then answers like `echo` -/
   | waitctx
   deriving Repr, DecidableEq, Inhabited
@@ -252,8 +256,11 @@ def behave (b : Behaviour) (args : List Json) : HResult :=
   | .typednil => { result := some .null }
   | .both => { result := some (.arr args), error := some { code := 7, message := "both" } }
   | .waitctx => { result := some (.arr args) }
+  | .unmarshalable => { result := some .null, marshals := false }
+  | .panic => { panics := true }
 
-def goEnv (strictAny : Bool) (behaviours : List (String × Behaviour)) : Env where
+def goEnv (strictAny : Bool) (behaviours : List (String × Behaviour)) (nullNotGiven : Bool := true) : Env where
+  nullNotGiven := nullNotGiven
   decode := goDecode strictAny
   zero := goZero
   call name args :=
